@@ -10,7 +10,21 @@ def first_method_rows(spec, start_row, n):
 class C06(scen.WorldProp):
     id = "C06"
     lean_module = "Wheatley.Props.C06"
-    theorems = []
+    theorems = ["Wheatley.C06.go_arms_counter",
+                "Wheatley.C06.go_during_method_noop",
+                "Wheatley.C06.row_numbers",
+                "Wheatley.C06.opening_until_go",
+                "Wheatley.C06.countdown",
+                "Wheatley.C06.start_at_zero",
+                "Wheatley.C06.crash_iff",
+                "Wheatley.C06.go_starts_next_row",
+                "Wheatley.C06.go_starts_row_after_next",
+                "Wheatley.C06.second_go_same_start",
+                "Wheatley.C06.look_to_counter",
+                "Wheatley.C06.udi_hand_start",
+                "Wheatley.C06.udi_back_start",
+                "Wheatley.C06.opening_row_rung",
+                "Wheatley.startNextRow_ctl"]
     level_text = ("theorems: Go arms the counter by stroke parity, the method starts at the least later row of the "
                   "start stroke, the stroke assertion never fires, Go during the method is a no-op, up-down-in counts "
                   "2/3 rows (all for arbitrary states). correspondence: timed sessions over the real Bot.main_loop, "
